@@ -33,8 +33,9 @@ with the faults still armed, so that a later fault can hit the session that foll
 faults disarmed -> session B, a plain immediate write session in the same thread ("a following session") -> state
 check -> (SQLite) session C in a different thread -> db.disconnect() -> final accounting.
 Quick tier: two fault positions for exception class 0, one for classes 1 and 2 (~1500-1900 paths per harness).
-Thorough tier: A2 armed, two positions for every exception class, a third position for class 0 with mid <= 3
-(~7000-17000 paths per harness).
+Thorough tier: A2 armed and a third position for class 0 with mid <= 3.  C19_FULL=1 (manual) additionally allows
+position pairs for classes 1 and 2 (measured with A2 armed: file_opt 11650 paths / 438 s, with the third position
+17250 paths / 690 s, both confirmed).
 
 Reference statement of the property (functions `_state_ok`, `_scenario_body`):
   R1 the provider's transaction lock and pre-transaction lock are free; no acquire ever found the lock held
@@ -74,7 +75,7 @@ from engine import fakedb as F
 NMAX = int(os.environ.get('C19_NMAX', '80'))          # fault numbers range over 0..NMAX; every armed call is below it (checked)
 K3MAX = int(os.environ.get('C19_K3MAX', '0'))         # thorough tier: a third fault position (set to NMAX)
 ARMED2 = os.environ.get('C19_ARMED2') == '1'          # thorough tier: a second session of the same shape runs with the faults still armed
-FULL = os.environ.get('C19_FULL') == '1'              # thorough tier: fault pairs for every exception class (quick: pairs only for class 0)
+FULL = os.environ.get('C19_FULL') == '1'              # manual: fault pairs for every exception class (tiers: pairs only for class 0)
 K3FULL = os.environ.get('C19_K3FULL') == '1'          # (not used by any tier: the third position for every mid/exception class)
 MIDS = 8
 
